@@ -59,7 +59,7 @@ PROFILES = {
     # which functions, pure bodies?, extra event kinds, threads
     "C01": dict(lifetime=True, sel=lambda f: True, pure=True, events=["tick", "invw", "tag", "invc"], threads=2),
     "C02": dict(sel=lambda f: f["sig"] in (1, 2, 4, 5, 6, 7, 8), pure=True, events=[], threads=2),
-    "C03": dict(sel=plain, pure=True, events=[], threads=3),
+    "C03": dict(pingpong=True, sel=plain, pure=True, events=[], threads=3),
     "C09": dict(lifetime=True, sel=lambda f: f["is_result"] and not f["cache_if"], pure=False, events=["tick"], threads=1),
     "C10": dict(lifetime=True, sel=lambda f: f["cache_if"], pure=False, events=["tick"], threads=1),
     "C11": dict(lifetime=True, sel=lambda f: f["inval_on"], pure=False, events=["tick"], threads=1),
@@ -67,13 +67,13 @@ PROFILES = {
                 events=["tag", "event", "dep", "invc", "invcn"], threads=1, heavy_inval=True),
     "C13": dict(sel=lambda f: f["fl"] != "t" or f["idx"] % 5 == 0, pure=True,
                 events=["invw", "invall", "invwn", "tag", "invc", "dep", "event"], threads=1, heavy_inval=True),
-    "C14": dict(sel=lambda f: True, pure=True, events=[], threads=4),
+    "C14": dict(pingpong=True, echo=True, sel=lambda f: True, pure=True, events=[], threads=4),
     "C20": dict(sel=lambda f: f["gates"] > 0, pure=False, events=[], threads=3, async_susp=True),
     "C04": dict(sel=lambda f: f["limit"] is not None and not f["inval_on"], pure=True, events=["invw", "invall", "tag"], threads=2),
     "C05": dict(sel=lambda f: f["mem"] is not None, pure=False, events=["invw"], threads=2),
     "C06": dict(lifetime=True, sel=lambda f: f["ttl"] is not None, pure=True, events=["tick", "invw"], threads=2),
-    "C07": dict(sel=lambda f: f["pol"] in ("fifo", "lru") and (f["limit"] or f["mem"]), pure=True, events=["invw", "invall"], threads=1),
-    "C08": dict(sel=lambda f: f["pol"] in ("lfu", "arc", "tlru") and (f["limit"] or f["mem"]), pure=True, events=["invw", "tick"], threads=1),
+    "C07": dict(pingpong=True, sel=lambda f: f["pol"] in ("fifo", "lru") and (f["limit"] or f["mem"]), pure=True, events=["invw", "invall"], threads=3),
+    "C08": dict(pingpong=True, sel=lambda f: f["pol"] in ("lfu", "arc", "tlru") and (f["limit"] or f["mem"]), pure=True, events=["invw", "tick"], threads=3),
     "C15": dict(sel=lambda f: f["fl"] != "t", pure=True, events=["sget", "sreset", "sgetn", "tick", "invw"], threads=3),
     "C19": dict(lifetime=True, sel=lambda f: True, pure=True, events=["tick", "tag", "invw", "sget"], threads=2),
     "C16": dict(sel=lambda f: True, pure=False, events=["tick", "tag", "event", "dep", "invc", "invw", "invall", "sget", "sreset"], threads=3),
@@ -208,9 +208,43 @@ def gen_lifetime_case(r, fns, prof):
     return [f], evs
 
 
+def gen_pingpong_case(r, fns, prof):
+    """one shared cache with a small limit used by several threads in turn: each thread keeps hitting its
+    own key while the others hit or store theirs; every hit must count for the shared recency order"""
+    pool = [f for f in fns if prof["sel"](f) and f["fl"] != "t" and f["limit"] and f["limit"] >= 2 and f["sig"] == 0
+            and not f["ttl"] and not f["mem"] and not f["inval_on"] and not f["cache_if"] and not f["is_result"]]
+    if not pool:
+        return None
+    f = r.pick(pool)
+    L = f["limit"]
+    nthreads = max(2, prof["threads"])
+
+    def ev(x, tid):
+        return "E 0 call %d %d %d ok %d %d 0 1" % (f["idx"], x, tid, (f["idx"] * 37 + x * 11) % 500 + 1, LENS[x % 5])
+    evs = [ev(x, 0) for x in range(L)]
+    nxt = L
+    for rnd in range(2 + r.below(4)):
+        own = [(t, r.below(L + 1)) for t in range(nthreads)]
+        for _ in range(1 + r.below(3)):
+            for t, x in own:
+                if r.chance(3, 4):
+                    evs.append(ev(x, t))
+        if r.chance(2, 3):
+            evs.append(ev(nxt % (L + 3), r.below(nthreads)))
+            nxt += 1
+    for x in range(L + 3):
+        if r.chance(1, 2):
+            evs.append(ev(x, r.below(nthreads)))
+    return [f], evs
+
+
 def gen_case(r, fns, prof, nev):
     if prof.get("async_susp"):
         return gen_async_case(r, fns)
+    if prof.get("pingpong") and r.chance(1, 5):
+        c = gen_pingpong_case(r, fns, prof)
+        if c:
+            return c
     if prof.get("lifetime") and r.chance(1, 4):
         c = gen_lifetime_case(r, fns, prof)
         if c:
@@ -294,6 +328,10 @@ def gen_case(r, fns, prof, nev):
         inv = 1 if r.chance(1, 3) else 0
         cif = 1 if r.chance(2, 3) else 0
         evs.append("E %d call %d %d %d %s %d %d %d %d" % (dt, f["idx"], x, tid, "ok" if ok else "err", v, ln, inv, cif))
+        if prof.get("echo") and prof["threads"] > 1 and r.chance(1, 3):
+            # the same call again at once from another thread: shared (global, async) or separate (thread scope)
+            t2 = (tid + 1 + r.below(prof["threads"] - 1)) % prof["threads"]
+            evs.append("E 0 call %d %d %d %s %d %d %d %d" % (f["idx"], x, t2, "ok" if ok else "err", v, ln, 0, cif))
     return chosen, evs
 
 
